@@ -100,3 +100,11 @@ Proof.
   intros a b H; destruct a, b; cbn [ntype_eqb] in H; try discriminate; try reflexivity;
   apply N.eqb_eq in H; subst; reflexivity.
 Qed.
+
+Lemma is_parent_match_sound_lemma : forall o ts nd name ts' pn,
+  is_parent o ts nd name = (ts', Matched pn) ->
+  (exists t, In t ts /\ In pn (fst t)) /\ n_name pn = name /\ core_match o pn nd = true.
+Proof.
+  intros o ts nd name ts' pn H. destruct (is_parent_matched _ _ _ _ _ _ H) as [A [B C]].
+  exact (conj A (conj B (meta_match_core _ _ _ C))).
+Qed.
